@@ -39,7 +39,11 @@ ANON = "anonymous00000000000000000000000"
 INSTITUTIONS = [
     {"P": "https://ofx.alpha-bank.com/ofx", "org": "ALPHA", "fid": "101", "S": ["https://ofx.alpha-bank.com/ofx", "https://ofx.alpha-bank.com/svc/stmt", "https://svc.alpha-data.net/ofx"]},
     {"P": "https://www.beta-bank.org/cgi/ofx", "org": "BETA", "fid": "202", "S": ["https://www.beta-bank.org/cgi/ofx", "https://www.beta-bank.org/other", "https://ofx.gamma-host.com/beta"]},
+    # URLs with percent-escapes and sub-delimiters: requests go to the URL exactly as configured / advertised
+    {"P": "https://ofx.delta-cu.coop/cgi-bin/ofx%20gw/a;v=1,2@x+y:z?inst=%2Fd&k=a=b", "org": "DELTA", "fid": "303",
+     "S": ["https://ofx.delta-cu.coop/cgi-bin/ofx%20gw/a;v=1,2@x+y:z?inst=%2Fd&k=a=b", "https://ofx.delta-cu.coop/svc%2Fstmt;jsessionid=1?a=%41", "https://d%65lta.example.net:8443/o+f,x"]},
 ]
+OTHER_PROFILE_URLS = ["https://profiles.example.org/prof", "https://www.beta-bank.org/cgi/ofx", "https://ofx.alpha-bank.com/alt%2Fprofile;x=1"]
 
 STATS = None  # per worker process
 
@@ -69,6 +73,7 @@ class ClientMachine(RuleBasedStateMachine):
         self.history = []
         self.flags = set()
         self.failed = False
+        self.foreign_cache = set()
 
     def teardown(self):
         self.net.__exit__(None, None, None)
@@ -99,7 +104,7 @@ class ClientMachine(RuleBasedStateMachine):
         return 200, headers, b"<OFX>fixture reply</OFX>"
 
     # -- rules ----------------------------------------------------------------
-    @initialize(specs=st.lists(st.tuples(st.integers(0, 1), st.booleans(), st.sampled_from(["InetClntApp/3.0", "MyAgent/1.0 (x)", "curl/8"]), st.sampled_from([102, 103, 203, 220])), min_size=1, max_size=3))
+    @initialize(specs=st.lists(st.tuples(st.integers(0, 2), st.booleans(), st.sampled_from(["InetClntApp/3.0", "MyAgent/1.0 (x)", "curl/8"]), st.sampled_from([102, 103, 203, 220])), min_size=1, max_size=3))
     def make_clients(self, specs):
         from ofxtools.Client import OFXClient
 
@@ -129,8 +134,10 @@ class ClientMachine(RuleBasedStateMachine):
         urls = {"BANKMSGSET": S, "CREDITCARDMSGSET": S, "INVSTMTMSGSET": S}
         if inconsistent:
             urls["INVSTMTMSGSET"] = I["S"][(s_choice + 1) % 3]
+        # message sets the client has no business with, at other URLs (the profile server's own, sign-up, e-mail)
+        extra = {"PROFMSGSET": I["S"][(s_choice + 2) % 3], "SIGNUPMSGSET": I["S"][(s_choice + 1) % 3], "EMAILMSGSET": OTHER_PROFILE_URLS[0]}
         code1 = up_to_date and bool(self.cache.get(key))
-        self.plan = {"urls": urls, "profile_code": 1 if code1 else 0}
+        self.plan = {"urls": dict(urls, **extra), "profile_code": 1 if code1 else 0}
         if code1 and api != "profile" and mode == "normal":
             # 'up to date': the service URL comes from the profile cached earlier, not from this reply
             cached = self.cache[key]
@@ -205,60 +212,111 @@ class ClientMachine(RuleBasedStateMachine):
             self.after(ci, new, key)
             return
         for (what, url), rec in zip(hops, new):
-            pre = f"{what}-hop"
-            if rec["method"] != "POST":
-                self.fail(pre + "-not-POST", step, rec["method"])
-            if rec["url"] != url:
-                self.fail(pre + "-wrong-url", step, f"sent to {rec['url']}, expected {url}")
-            h = rec["headers"]
-            if h.get("content-type") != "application/x-ofx":
-                self.fail("content-type", step, str(h.get("content-type")))
-            acc = h.get("accept", "")
-            if not any(tok.strip().split(";")[0] in ("*/*", "application/x-ofx", "application/*") for tok in acc.split(",")):
-                self.fail("accept-does-not-admit-ofx", step, acc)
-            if h.get("user-agent") != cl["ua"]:
-                self.fail("user-agent", step, f"{h.get('user-agent')!r} != {cl['ua']!r}")
-            body = rec["data"] or b""
-            try:
-                story = Q.story_from_bytes(body)
-            except Exception as e:
-                self.fail(pre + "-body-not-ofx", step, repr(e))
-                continue
-            if what == "profile":
-                if story["signon"]["userid"] != ANON or story["signon"]["userpass"] != ANON:
-                    self.fail("profile-hop-not-anonymous", step, str(story["signon"]))
-                if cl["uid"].encode() in body or cl["pw"].encode() in body:
-                    self.fail("profile-hop-carries-credentials", step, url)
-                if any(v for k, v in story["requests"].items() if k != "prof") or len(story["requests"]["prof"]) != 1:
-                    self.fail("profile-hop-carries-other-requests", step, str(story["requests"]))
-            else:
-                want = Q.story_from_bytes(dry_bytes)
-                for k in ("version", "signon", "requests", "msgsets"):
-                    if story[k] != want[k]:
-                        self.fail("service-body-differs-from-dry-run/" + k, step, f"{story[k]} != {want[k]}")
-                        break
-                if api != "profile" and (story["signon"]["userid"] != cl["uid"] or story["signon"]["userpass"] != cl["pw"]):
-                    self.fail("service-hop-credentials-wrong", step, str(story["signon"]))
-                if url != P:
-                    self.flags.add("service-url-differs")
-            # cookies
-            sent = {}
-            if "cookie" in h:
-                for part in h["cookie"].split(";"):
-                    if "=" in part:
-                        n, v = part.strip().split("=", 1)
-                        sent[n] = v
-            want_c = dict(self.jar[ci].get(host_of(rec["url"]), {})) if cl["persist"] else {}
-            if sent != want_c:
-                kind = "cookie-from-another-client" if any(n.startswith("p") and n != f"p{ci}" for n in sent) else "cookie-header-wrong"
-                self.fail(kind, step, f"sent {sent}, reference jar {want_c} (host {host_of(rec['url'])})")
-            elif sent:
-                self.flags.add("cookie-replayed")
-            # the response to this hop may set cookies for the next one
-            self.absorb(ci, rec)
+            self.check_hop(step, what, url, rec, cl, ci, dry_bytes, api, P)
         self.after(ci, [], key)
         if hops and hops[0][0] == "profile" and self.plan.get("fail_profile") is None and not code1:
             self.cache[key] = dict(urls)
+
+    @rule(i=st.integers(0, 2), u=st.integers(0, 5), cookie=st.booleans())
+    def profile_at(self, i, u, cookie):
+        """request_profile(url=...) : a profile request addressed, for this call, to another URL than the client's own."""
+        ci = i % len(self.clients)
+        cl = self.clients[ci]
+        c = cl["c"]
+        I = INSTITUTIONS[cl["inst"]]
+        X = (OTHER_PROFILE_URLS + I["S"][1:] + [INSTITUTIONS[(cl["inst"] + 1) % len(INSTITUTIONS)]["P"]])[u % 6]
+        if X == I["P"]:
+            return
+        self.plan = {"urls": {"BANKMSGSET": X, "CREDITCARDMSGSET": X, "INVSTMTMSGSET": X}, "profile_code": 0}
+        if cookie:
+            self.cookie_n += 1
+            self.plan["cookies_profile"] = [(f"p{ci}", f"v{self.cookie_n}")]
+        step = ["profile_at", ci, u, cookie]
+        self.history.append(step)
+        warnings.simplefilter("ignore")
+        d = self.tmp / "fiprofiles"
+        had = set(p.name for p in d.iterdir()) if d.exists() else set()
+        before = len(self.net.log)
+        sock_before = len(self.net.socket_attempts)
+        try:
+            c.request_profile(url=X, dryrun=True)
+        except Exception as e:
+            self.fail("dry-run-raises", step, repr(e))
+            return
+        if len(self.net.log) != before or len(self.net.socket_attempts) != sock_before:
+            self.fail("dry-run-sent-a-request", step, f"{self.net.log[before:][:1]}")
+            return
+        raised = None
+        try:
+            c.request_profile(url=X)
+        except Exception as e:
+            raised = e
+        new = self.net.log[before:]
+        if len(new) != 1:
+            self.fail("hop-count", step, f"expected one POST to {X}, sent {[(r['method'], r['url']) for r in new]} raised={raised!r}")
+        else:
+            self.flags.add("profile-url-given-per-call")
+            self.check_hop(step, "profile", X, new[0], cl, ci, None, "profile", I["P"])
+        for rec in new:
+            if not rec.get("absorbed"):
+                self.absorb(ci, rec)
+        # whatever this call cached belongs to X, not to the client's own server: not the model's business
+        now = set(p.name for p in d.iterdir()) if d.exists() else set()
+        self.foreign_cache |= now - had
+
+    def check_hop(self, step, what, url, rec, cl, ci, dry_bytes, api, P):
+        pre = f"{what}-hop"
+        if rec["method"] != "POST":
+            self.fail(pre + "-not-POST", step, rec["method"])
+        if rec["url"] != url:
+            self.fail(pre + "-wrong-url", step, f"sent to {rec['url']}, expected {url}")
+        h = rec["headers"]
+        if h.get("content-type") != "application/x-ofx":
+            self.fail("content-type", step, str(h.get("content-type")))
+        acc = h.get("accept", "")
+        if not any(tok.strip().split(";")[0] in ("*/*", "application/x-ofx", "application/*") for tok in acc.split(",")):
+            self.fail("accept-does-not-admit-ofx", step, acc)
+        if h.get("user-agent") != cl["ua"]:
+            self.fail("user-agent", step, f"{h.get('user-agent')!r} != {cl['ua']!r}")
+        body = rec["data"] or b""
+        try:
+            story = Q.story_from_bytes(body)
+        except Exception as e:
+            self.fail(pre + "-body-not-ofx", step, repr(e))
+            self.absorb(ci, rec)
+            return
+        if what == "profile":
+            if story["signon"]["userid"] != ANON or story["signon"]["userpass"] != ANON:
+                self.fail("profile-hop-not-anonymous", step, str(story["signon"]))
+            if cl["uid"].encode() in body or cl["pw"].encode() in body:
+                self.fail("profile-hop-carries-credentials", step, url)
+            if any(v for k, v in story["requests"].items() if k != "prof") or len(story["requests"]["prof"]) != 1:
+                self.fail("profile-hop-carries-other-requests", step, str(story["requests"]))
+        else:
+            want = Q.story_from_bytes(dry_bytes)
+            for k in ("version", "signon", "requests", "msgsets"):
+                if story[k] != want[k]:
+                    self.fail("service-body-differs-from-dry-run/" + k, step, f"{story[k]} != {want[k]}")
+                    break
+            if api != "profile" and (story["signon"]["userid"] != cl["uid"] or story["signon"]["userpass"] != cl["pw"]):
+                self.fail("service-hop-credentials-wrong", step, str(story["signon"]))
+            if url != P:
+                self.flags.add("service-url-differs")
+        # cookies
+        sent = {}
+        if "cookie" in h:
+            for part in h["cookie"].split(";"):
+                if "=" in part:
+                    n, v = part.strip().split("=", 1)
+                    sent[n] = v
+        want_c = dict(self.jar[ci].get(host_of(rec["url"]), {})) if cl["persist"] else {}
+        if sent != want_c:
+            kind = "cookie-from-another-client" if any(n.startswith("p") and n != f"p{ci}" for n in sent) else "cookie-header-wrong"
+            self.fail(kind, step, f"sent {sent}, reference jar {want_c} (host {host_of(rec['url'])})")
+        elif sent:
+            self.flags.add("cookie-replayed")
+        # the response to this hop may set cookies for the next one
+        self.absorb(ci, rec)
 
     def absorb(self, ci, rec):
         if self.clients[ci]["persist"]:
@@ -272,7 +330,7 @@ class ClientMachine(RuleBasedStateMachine):
                 self.absorb(ci, rec)
         # the cache may have been written by a successful profile reply even when we could not predict the hops
         d = self.tmp / "fiprofiles"
-        cached = d.exists() and any(p.name.startswith(f"{key[0]}-{key[1]}") and p.name.endswith(".profrs") for p in d.iterdir())
+        cached = d.exists() and any(p.name.startswith(f"{key[0]}-{key[1]}") and p.name.endswith(".profrs") and p.name not in self.foreign_cache for p in d.iterdir())
         if cached and not self.cache.get(key):
             self.cache[key] = True
 
@@ -301,6 +359,8 @@ def check_case(case):
                     m.call(ci, api, mode, s_choice, bool(code1), cp, cs, fail, nreq)
                     m.history.pop()
                     m.history.append(stp)
+                elif stp[0] == "profile_at":
+                    m.profile_at(stp[1], stp[2], stp[3])
         finally:
             m.teardown()
         return [(k, v[2]) for k, v in STATS.failures.items()]
